@@ -68,7 +68,7 @@ def join(a, b):
 class Frame:
     """flow-sensitive abstract interpretation of one function (nested functions are analysed with the environment at their definition,
     their parameters being P); `summaries` maps function names to the kind of what they return"""
-    def __init__(self, fn, owner=None, summaries=None, outer_env=None):
+    def __init__(self, fn, owner=None, summaries=None, outer_env=None, only_param=None):
         self.fn, self.owner = fn, owner
         self.summaries = summaries if summaries is not None else {}
         self.sites = []
@@ -79,7 +79,7 @@ class Frame:
             if x.arg in ('self', 'cls') and owner is not None and owner not in DOMAIN_CLASSES:
                 env[x.arg] = 'F'          # the receiver is a helper object of the encoder (e.g. the Jigg converter), not a parse result
             else:
-                env[x.arg] = 'P'
+                env[x.arg] = 'P' if only_param is None or x.arg == only_param else 'F'
         if a.vararg:
             env[a.vararg.arg] = 'P'
         if a.kwarg:
@@ -160,9 +160,17 @@ class Frame:
                 self.sites.append((n.lineno, ast.unparse(n)[:80], k != 'P', f'{n.func.attr}() on {ast.unparse(n.func.value)} ({k})'))
             if isinstance(n, ast.Call) and isinstance(n.func, ast.Name) and self.summaries.get('@mutator:' + n.func.id):
                 # a helper of the module that stores through one of its parameters: harmless on fresh objects, a store into the parse results otherwise
-                ks = [self.val(x, env) for x in n.args] + [self.val(k.value, env) for k in n.keywords]
-                self.sites.append((n.lineno, ast.unparse(n)[:80], not any(k == 'P' for k in ks),
-                                   f'{n.func.id}() stores through a parameter; arguments: {ks}'))
+                mut = self.summaries['@mutator:' + n.func.id]          # names of the parameters the helper stores through
+                params = self.summaries.get('@params:' + n.func.id, [])
+                hit = []
+                for i, x in enumerate(n.args):
+                    if i < len(params) and params[i] in mut and self.val(x, env) == 'P':
+                        hit.append(params[i])
+                for k in n.keywords:
+                    if k.arg in mut and self.val(k.value, env) == 'P':
+                        hit.append(k.arg)
+                self.sites.append((n.lineno, ast.unparse(n)[:80], not hit,
+                                   f'{n.func.id}() stores through its parameter(s) {sorted(mut)}; reachable from the parse results here: {hit}'))
             if isinstance(n, ast.Call) and isinstance(n.func, ast.Name) and n.func.id in ('setattr', 'delattr') and n.args:
                 k = self.val(n.args[0], env)
                 self.sites.append((n.lineno, ast.unparse(n)[:80], k != 'P', f'{n.func.id}() on {ast.unparse(n.args[0])} ({k})'))
@@ -290,7 +298,11 @@ def frame_obligations(prop):
                 if isinstance(fn, ast.FunctionDef) and fn.name not in names and not any(fn.name in ns for _, ns in ENCODERS):
                     fr = Frame(fn, owner=None, summaries=summaries)
                     summaries[fn.name] = fr.ret or 'F'
-                    summaries['@mutator:' + fn.name] = any(not ok for _, _, ok, _ in fr.store_sites())
+                    pnames = [x.arg for x in fn.args.posonlyargs + fn.args.args]
+                    summaries['@params:' + fn.name] = pnames
+                    # which parameters the helper stores through: one analysis per parameter, with only that parameter reachable from the parse results
+                    summaries['@mutator:' + fn.name] = {pn for pn in pnames + [x.arg for x in fn.args.kwonlyargs]
+                                                       if any(not ok for _, _, ok, _ in Frame(fn, owner=None, summaries=summaries, only_param=pn).store_sites())}
             for q in names:
                 fn = _find(tree, q.split('.'))
                 if fn is not None:
